@@ -1118,6 +1118,41 @@ def rule_restrict(chk, prog, tier):
     r.exhaustive = False
 
 
+# ------------------------------------------------------------------ C10.r builtin names are only callable
+
+def rule_builtin_names(chk, prog, tier):
+    r = chk.rule('C10.r', 'the name of a builtin function designates nothing but the builtin being called: used as a value (followed by anything but `(`) it is diagnosed - the identifier has no type the rest of the compiler could work with',
+                 floor=20, oracle='the builtins are not functions with addresses (GCC manual, "Other Builtins"); C11 6.5.1p2 for ordinary identifiers')
+    fn = prog.require_func('primaryexpr', 'expr.c')
+    names = [n for n, v in cmodel.enum_names(prog, 'builtinkind') if n.startswith('BUILTIN')]
+    if len(names) < 8: raise AnalysisBroken('enum builtinkind: only %d enumerators found' % len(names))
+    for bk in names:
+        for follow in ('TSEMICOLON', 'TRPAREN', 'TADD', 'TCOMMA', 'TLPAREN'):
+            def runner(it):
+                w = World(prog, it=it, target='x86_64-sysv')
+                d = Obj('builtin-decl', 'heap'); nm = '__builtin_x'
+                d.f.update({('name',): Ptr(it.mkstr(list(nm.encode()), nm), (0,)), ('kind',): ev(prog, 'DECLBUILTIN'), ('type',): None, ('qual',): 0, ('u', 'builtin'): ev(prog, bk)})
+                tokobj = it.gobj('tok'); st = {'i': 0}
+                toks = ['TIDENT', follow, 'TSEMICOLON']
+                def load():
+                    tokobj.f[('kind',)] = ev(prog, toks[min(st['i'], 2)]); tokobj.f[('lit',)] = Ptr(it.mkstr(list(nm.encode()), nm), (0,)) if st['i'] == 0 else None
+                    tokobj.f[('loc', 'file')] = None; tokobj.f[('loc', 'line')] = 1; tokobj.f[('loc', 'col')] = 1
+                def nxt(i2, a, e): st['i'] += 1; load(); return None
+                it.models.update({'next': nxt, 'scopegetdecl': lambda i2, a, e: Ptr(d, ()), 'xmalloc': lambda i2, a, e: Ptr(Obj('heap@%s' % e.get('line'), 'heap'), ()),
+                                  'error': lambda i2, a, e: (_ for _ in ()).throw(Terminal('error', cmodel.fmt_of(i2, a, 1))),
+                                  'fatal': lambda i2, a, e: (_ for _ in ()).throw(Terminal('fatal', cmodel.fmt_of(i2, a, 0)))})
+                load()
+                e_ = it.call(fn, [Ptr(Obj('scope', 'heap'), ())])
+                return it.load(e_.obj, ('kind',)) == ev(prog, 'EXPRIDENT')
+            runs = explore(prog, runner, {}, max_runs=4, on_unsupported='keep')
+            key = 'builtin-name:%s followed by %s' % (bk[7:].lower(), follow[1:].lower())
+            if len(runs) != 1 or runs[0].outcome == 'unsupported':
+                raise AnalysisBroken('%s: %s' % (key, [(x.outcome, x.detail) for x in runs][:2]))
+            if follow == 'TLPAREN': r.instance(runs[0].outcome == 'return' and runs[0].value, key, 'expr.c:primaryexpr', 'a call of the builtin: the identifier node is handed to postfixexpr; got %s %s' % (runs[0].outcome, runs[0].detail or ''))
+            else: r.instance(runs[0].outcome == 'terminal:error', key, 'expr.c:primaryexpr', 'must be diagnosed; cproc yields an expression node without a type (%s)' % runs[0].outcome)
+    r.exhaustive = True
+
+
 def run(chk, tier):
     from props import c01f
     prog = facts.programs()['cproc-qbe']
@@ -1141,6 +1176,7 @@ def run(chk, tier):
     chk.guard('C10.o', lambda: rule_specifier_kind(chk, prog, tier))
     chk.guard('C10.p', lambda: rule_restrict(chk, prog, tier))
     chk.guard('C10.q', lambda: rule_structdecl_syntax(chk, prog, tier))
+    chk.guard('C10.r', lambda: rule_builtin_names(chk, prog, tier))
     from props import c08
     chk.guard('C08.e', lambda: c08.rule_valist(chk, prog, tier))        # va_arg of a structure or union (unsupported) is diagnosed
     from props import c05
